@@ -228,5 +228,68 @@ def _is_first_output_of(val, c, env):
     return False
 
 
+def rule_gain(repo, tier):
+    res = RuleResult('C14.GAIN', 'lqr_backward: the gains solve with the blocks of the value-function Hessian themselves - the factor handed to '
+                     'cholesky_solve is the Cholesky factor of exactly Qt[ns:, ns:] (no added regularisation), K_t = -solve(Qt[ns:, :ns]), '
+                     'k_t = -solve(qt[ns:])', floor=3)
+    f = repo.func(LQR, 'LQR.lqr_backward')
+    loops = [n for n in ast.walk(f.node) if isinstance(n, ast.For)]
+    if not loops:
+        raise AnalysisError('C14.GAIN: backward recursion loop not found')
+    loop = loops[0]
+    inl = Inliner()
+    for st in loop.body:
+        if isinstance(st, ast.If):
+            # Qt / qt are defined in both branches: treat them as the opaque blocks of this iteration
+            inl.env['Qt'] = ast.Name('$Qt', ast.Load())
+            inl.env['qt'] = ast.Name('$qt', ast.Load())
+            continue
+        inl.feed(st)
+    def blk(s_):
+        return dump(ast.parse(s_, mode='eval').body)
+    Quu, Qux, qu = blk('$Qt[..., ns:, ns:]') if False else None, None, None
+    want_Quu = ast.parse('Qt[..., ns:, ns:]', mode='eval').body
+    want_Qux = ast.parse('Qt[..., ns:, :ns]', mode='eval').body
+    want_qu = ast.parse('qt[..., ns:]', mode='eval').body
+    sub = {'Qt': ast.Name('$Qt', ast.Load()), 'qt': ast.Name('$qt', ast.Load())}
+    dQuu, dQux, dqu = dump(subst(want_Quu, sub)), dump(subst(want_Qux, sub)), dump(subst(want_qu, sub))
+    chol = [c for c in paths.calls_in(loop) if (dotted(c.func) or '').split('.')[-1] == 'cholesky']
+    solves = [c for c in paths.calls_in(loop) if (dotted(c.func) or '').split('.')[-1] == 'cholesky_solve']
+    if not chol or len(solves) < 2:
+        raise AnalysisError('C14.GAIN: cholesky / cholesky_solve calls not found in the backward recursion')
+    for c in chol:
+        a = inl.value(c.args[0])
+        ok = dump(a) == dQuu
+        res.inst({'function': f.fq, 'factorised': src(c.args[0])[:50], 'is_Quu_block': ok}, 'chol')
+        if not ok:
+            res.add(Finding('C14.GAIN', f, 'the gain is computed from the Cholesky factor of `%s`, not of the input block Quu = Qt[ns:, ns:] of the '
+                            'value-function Hessian: the returned controls are not the minimiser' % src(a)[:70].replace('$', ''), node=c))
+    seen = set()
+    for c in solves:
+        b = inl.value(c.args[0])
+        core = b
+        while isinstance(core, ast.Call) and isinstance(core.func, ast.Attribute) and core.func.attr in ('unsqueeze', 'squeeze'):
+            core = core.func.value
+        which = 'Qux' if dump(core) == dQux else 'qu' if dump(core) == dqu else None
+        fac = inl.value(c.args[1]) if len(c.args) > 1 else None
+        fac_ok = isinstance(fac, ast.Call) and (dotted(fac.func) or '').split('.')[-1] == 'cholesky'
+        res.inst({'function': f.fq, 'solve_rhs': src(c.args[0])[:40], 'block': which, 'uses_cholesky_factor': fac_ok}, 'solve' + str(which))
+        seen.add(which)
+        if which is None:
+            res.add(Finding('C14.GAIN', f, 'cholesky_solve is applied to `%s`, which is neither Qux = Qt[ns:, :ns] nor qu = qt[ns:]' % src(b)[:60].replace('$', ''), node=c))
+        if not fac_ok:
+            res.add(Finding('C14.GAIN', f, 'cholesky_solve is not given a Cholesky factor', node=c))
+    if seen >= {'Qux', 'qu'}:
+        # signs: K_t and k_t are the negated solves
+        for tname in ('Kt', 'kt'):
+            v = inl.env.get(tname)
+            if v is not None:
+                neg = isinstance(v, ast.UnaryOp) and isinstance(v.op, ast.USub)
+                res.inst({'function': f.fq, 'gain': tname, 'negated': neg}, tname)
+                if not neg:
+                    res.add(Finding('C14.GAIN', f, '%s is not the negated solve' % tname, construct='sign ' + tname))
+    return res
+
+
 def rules(repo, tier):
-    return [rule_clk(repo, tier), rule_feas_cost(repo, tier)]
+    return [rule_clk(repo, tier), rule_feas_cost(repo, tier), rule_gain(repo, tier)]
